@@ -39,6 +39,31 @@ Proof.
   unfold int_byte, is_digit, inr. apply orb_true_intro. left. apply orb_true_intro. left. apply andb_true_intro; split; apply N.leb_le; lia.
 Qed.
 
+Lemma parse_int64_int_text : forall neg ds, ds <> [] -> all_digits ds = true ->
+  - 9223372036854775808 <= int_value neg ds < 9223372036854775808 ->
+  parse_int64 (int_text neg ds) = Some (int_value neg ds).
+Proof.
+  intros neg ds Hne Hd Hr.
+  assert (V : 0 <= digits_value ds).
+  { unfold digits_value. assert (G : forall l a, 0 <= a -> 0 <= fold_left (fun a d => a * 10 + Z.of_N d) l a).
+    { induction l as [|x l IH]; intros a Ha; [exact Ha|]. cbn [fold_left]. apply IH. lia. }
+    apply G. lia. }
+  destruct ds as [|d ds']; [congruence|].
+  assert (D : exists c r, digits_text (d :: ds') = String c r /\ Ascii.eqb c "+" = false /\ Ascii.eqb c "-" = false).
+  { cbn [all_digits forallb] in Hd. apply andb_prop in Hd. destruct Hd as [Hd _]. apply N.ltb_lt in Hd.
+    exists (ascii_of_N (48 + d)), (digits_text ds'). split; [reflexivity|].
+    split; apply Ascii.eqb_neq; intro E; apply (f_equal byte) in E; rewrite (byte_digit d Hd) in E.
+    - change (byte "+"%char) with 43%N in E. lia.
+    - change (byte "-"%char) with 45%N in E. lia. }
+  destruct D as [c [r [E [P M]]]].
+  unfold parse_int64. destruct neg; cbn [int_text int_value] in *.
+  - change (Ascii.eqb "-" "+") with false. change (Ascii.eqb "-" "-") with true. cbv iota.
+    rewrite E. rewrite <- E. rewrite (parse_digits_text _ 0 Hd). fold (digits_value (d :: ds')).
+    destruct (digits_value (d :: ds') <=? 9223372036854775808) eqn:L; [reflexivity|]. apply Z.leb_gt in L. lia.
+  - rewrite E, P, M. rewrite <- E. rewrite (parse_digits_text _ 0 Hd). fold (digits_value (d :: ds')).
+    destruct (digits_value (d :: ds') <? 9223372036854775808) eqn:L; [reflexivity|]. apply Z.ltb_ge in L. lia.
+Qed.
+
 Section PT.
   Variable rfc : string -> option Z.
   Variable chars : string.
@@ -53,25 +78,7 @@ Section PT.
     assert (C : contains_any (int_text neg ds) chars = false).
     { destruct neg; cbn [int_text contains_any]; rewrite (contains_any_digits chars ds Hc Hd); [|reflexivity].
       rewrite (in_chars_int_byte chars _ Hc); reflexivity. }
-    rewrite C.
-    assert (V : 0 <= digits_value ds).
-    { unfold digits_value. assert (G : forall l a, 0 <= a -> 0 <= fold_left (fun a d => a * 10 + Z.of_N d) l a).
-      { induction l as [|x l IH]; intros a Ha; [exact Ha|]. cbn [fold_left]. apply IH. lia. }
-      apply G. lia. }
-    destruct ds as [|d ds']; [congruence|].
-    assert (D : exists c r, digits_text (d :: ds') = String c r /\ Ascii.eqb c "+" = false /\ Ascii.eqb c "-" = false).
-    { cbn [all_digits forallb] in Hd. apply andb_prop in Hd. destruct Hd as [Hd _]. apply N.ltb_lt in Hd.
-      exists (ascii_of_N (48 + d)), (digits_text ds'). split; [reflexivity|].
-      split; apply Ascii.eqb_neq; intro E; apply (f_equal byte) in E; rewrite (byte_digit d Hd) in E.
-      - change (byte "+"%char) with 43%N in E. lia.
-      - change (byte "-"%char) with 45%N in E. lia. }
-    destruct D as [c [r [E [P M]]]].
-    unfold parse_int64. destruct neg; cbn [int_text int_value] in *.
-    - change (Ascii.eqb "-" "+") with false. change (Ascii.eqb "-" "-") with true. cbv iota.
-      rewrite E. rewrite <- E. rewrite (parse_digits_text _ 0 Hd). fold (digits_value (d :: ds')).
-      destruct (digits_value (d :: ds') <=? 9223372036854775808) eqn:L; [reflexivity|]. apply Z.leb_gt in L. lia.
-    - rewrite E, P, M. rewrite <- E. rewrite (parse_digits_text _ 0 Hd). fold (digits_value (d :: ds')).
-      destruct (digits_value (d :: ds') <? 9223372036854775808) eqn:L; [reflexivity|]. apply Z.ltb_ge in L. lia.
+    rewrite C. apply parse_int64_int_text; assumption.
   Qed.
 End PT.
 
